@@ -308,7 +308,11 @@ structure GenOk (m : Mode) (O : Oracles) (p : ParamSet) (kp : PublicKey × Priva
   lens : kp.2.key.length = 32 ∧ kp.2.tr.length = 64 ∧ kp.2.rho = kp.1.rho ∧ kp.2.tr = kp.1.tr
   vecs : ∃ s1 s2 t0 t1 pkb, VecIn p.l (-p.eta) p.eta s1 ∧ VecIn p.k (-p.eta) p.eta s2 ∧ VecIn p.k (-4095) 4096 t0 ∧ VecIn p.k 0 1023 t1 ∧
     nttMont m s1 = .ok kp.2.s1 ∧ nttMont m s2 = .ok kp.2.s2 ∧ nttMont m t0 = .ok kp.2.t0 ∧ precomputeT1 m t1 = .ok kp.1.t1d2 ∧
-    pkEncode m p kp.1.rho t1 = .ok pkb ∧ kp.1.tr = O.h pkb 64
+    pkEncode m p kp.1.rho t1 = .ok pkb ∧ kp.1.tr = O.h pkb 64 ∧
+    ∃ aHat s1Hat as1 w t, expandA m O false p kp.1.rho = .ok aHat ∧
+      (aHat.length = p.k ∧ ∀ row ∈ aHat, row.length = p.l ∧ ∀ q ∈ row, q.length = 256 ∧ Res q) ∧ ntt m s1 = .ok s1Hat ∧
+      matVecMul m aHat s1Hat = .ok as1 ∧ invNtt m as1 = .ok w ∧
+      (do let tnr ← addVectorNtt m w s2; tnr.mapM (fun q : Poly => q.mapM (full_reduce32 m))) = .ok t ∧ power2round m t = .ok (t1, t0)
 
 /-- **`key_gen_internal` never panics**, for every seed; both keys it returns are well formed -/
 theorem keyGenInternal_np (m : Mode) (O : Oracles) (hO : OracleOk O) (p : ParamSet) (he : p.eta = 2 ∨ p.eta = 4) (hl7 : p.l ≤ 7)
@@ -323,7 +327,7 @@ theorem keyGenInternal_np (m : Mode) (O : Oracles) (hO : OracleOk O) (p : ParamS
   obtain ⟨s1, s2⟩ := ss
   obtain ⟨sh1, sh2, r1, r2⟩ := hss
   simp only [] at sh1 sh2 r1 r2 ⊢
-  refine (expandA_np m O hO false p _ hrho).bind (fun aHat hA => ?_)
+  refine (expandA_np m O hO false p _ hrho).bind' (fun aHat hAeq hA => ?_)
   have hArow : ∀ row ∈ aHat, row.length ≤ 7 ∧ ∀ q ∈ row, Res q :=
     fun row hrow => ⟨by rw [(hA.2 row hrow).1]; exact hl7, fun q hq => ((hA.2 row hrow).2 q hq).2⟩
   have hAsh : ∀ row ∈ aHat, ∀ q ∈ row, q.length = 256 := fun row hrow q hq => ((hA.2 row hrow).2 q hq).1
@@ -353,6 +357,6 @@ theorem keyGenInternal_np (m : Mode) (O : Oracles) (hO : OracleOk O) (p : ParamS
   have hkey : (((O.h (xi ++ [p.k % 256, p.l % 256]) 128).drop 96).take 32).length = 32 := by
     rw [List.length_take, List.length_drop, hO.hlen]; omega
   exact NoPanic.ok _ ⟨⟨hrho, sh8, b8⟩, ⟨hrho, sa1, sa2, sa0, ba1, ba2, ba0⟩, ⟨hkey, hO.hlen _ _, rfl, rfl⟩,
-    ⟨s1, s2, t0, t1, pkb, ⟨sh1, r1⟩, ⟨sh2, r2⟩, ⟨sh60, fun q hq x hx => by have := b60 q hq x hx; omega⟩, ⟨sh6, b6⟩, ha1, ha2, ha0, h8, h7, rfl⟩⟩
+    ⟨s1, s2, t0, t1, pkb, ⟨sh1, r1⟩, ⟨sh2, r2⟩, ⟨sh60, fun q hq x hx => by have := b60 q hq x hx; omega⟩, ⟨sh6, b6⟩, ha1, ha2, ha0, h8, h7, rfl, aHat, s1h, as1, w, t, hAeq, hA, h1, h3, h4, h5, h6⟩⟩
 
 end Fips204.Impl
